@@ -37,12 +37,29 @@ func verifIsExpression(n Node) bool { return n.IsExpression() }
 //@ ensures result1 == s.value
 
 // ---- C05: map literals are enumerated in source order -------------------------------------------------------
-// sort.SliceStable takes its slice as interface{} and a comparison callback: outside the subset. Assumed:
-// the result holds each key of the literal exactly once.
-//@ func (*Map).SortedKeys
+// SortedKeys: the result enumerates the keys of the literal exactly once, sorted by the character offset of
+// their first token. Together with "distinct keys of one literal start at distinct offsets" (a parser fact,
+// not proved here) the result is a function of the literal, independent of Go's map iteration order.
+// Assumed: Token() is a function of the node (nodes are immutable after parsing); sort.SliceStable permutes
+// its slice and leaves it sorted by the comparison (engine model, the comparison itself is checked: sortby).
+//@ func (Node).Token
 //@ trusted
 //@ modifies nothing
-//@ ensures len(result) == len(m.items) && fresh(result) && forall(j, 0, len(result), result[j] != nil && haskey(m.items, result[j]))
+//@ ensures result.StartPosition.Char == uf("ast.startchar", int, self)
+
+//@ spec startchar(n) = uf("ast.startchar", int, n)
+
+//@ func (*Map).SortedKeys
+//@ props C05
+//@ requires m != nil
+//@ assume[ast.items.nonnil] forallT(k, Expression, haskey(m.items, k) ==> k != nil)
+//@ modifies nothing
+//@ invariant 1: len(keys) == iter && fresh(keys) && forall(j, 0, len(keys), keys[j] != nil && haskey(m.items, keys[j]) && seen(keys[j])) && forall(i, 0, len(keys), forall(j, i + 1, len(keys), keys[i] != keys[j]))
+//@ sortby[C05.astkeys.less] 1: startchar(keys[i]) < startchar(keys[j])
+//@ ensures[C05.astkeys.sorted] forall(i, 0, len(result), forall(j, i, len(result), startchar(result[i]) <= startchar(result[j])))
+//@ ensures[C05.astkeys.members] forall(j, 0, len(result), result[j] != nil && haskey(m.items, result[j]))
+//@ ensures[C05.astkeys.distinct] forall(i, 0, len(result), forall(j, i + 1, len(result), result[i] != result[j]))
+//@ ensures[C05.astkeys.all] len(result) == len(m.items) && fresh(result)
 
 // Dispositions of the map-range loops of this package: (*Map).SortedKeys#1 feeds a slice that is sorted by
 // source position (a total order on the keys of one literal) before it is used.
